@@ -115,6 +115,19 @@ fn shape_case(ctx: &mut Ctx, rng: &mut Rng, i: u64) {
         ents.insert(0, String::new());
     }
     let path_text = ents.join(":");
+    // PATH is a byte string: an entry that is not valid UTF-8 is searched like any other
+    let odd_bytes = rng.chance(250);
+    let path_os: OsString = if odd_bytes {
+        use std::os::unix::ffi::OsStringExt;
+        let mut b = b"/nonexistent-\xff\xfe\xc3/bin:".to_vec();
+        b.extend_from_slice(path_text.as_bytes());
+        if rng.chance(500) {
+            b.extend_from_slice(b":/nonexistent/\xe9\xe8");
+        }
+        OsString::from_vec(b)
+    } else {
+        OsString::from(&path_text)
+    };
     // argv / env sizes
     let nargs = match rng.below(5) { 0 => rng.range(100, 400), _ => rng.range(0, 6) } as usize;
     // the program may also be named apart from argv[0] (PopenConfig::executable): argv[0] is then anything, shorter or longer
@@ -145,6 +158,9 @@ fn shape_case(ctx: &mut Ctx, rng: &mut Rng, i: u64) {
         cwd: cwd.as_ref().map(|p| p.clone().into_os_string()),
         env,
         setpgid: rng.chance(200),
+        // (the worker is root: becoming uid/gid 0 is always permitted and changes nothing)
+        setuid: if rng.chance(150) { Some(0) } else { None },
+        setgid: if rng.chance(150) { Some(0) } else { None },
         executable: if use_executable { Some(prog.clone()) } else { None },
         ..Default::default()
     };
@@ -160,7 +176,10 @@ fn shape_case(ctx: &mut Ctx, rng: &mut Rng, i: u64) {
     }
     let old = std::env::var_os("PATH");
     if use_path {
-        std::env::set_var("PATH", &path_text);
+        std::env::set_var("PATH", &path_os);
+        if odd_bytes {
+            ctx.count("path_values_with_non_utf8_bytes", 1);
+        }
     }
     let m = run::monitored(|| Popen::create(&argv, config));
     match old {
